@@ -84,6 +84,12 @@ def run(tier="quick", seed=0):
             finally:
                 for c in list(mc.connections.values()):
                     c.close()
+        elif via_dict == "both":
+            # half of the options in the sv_overrides dictionary, the other half as keywords of the same call
+            ks = sorted(kwargs)
+            d_part = dict((k_, kwargs[k_]) for k_ in ks[::2])
+            k_part = dict((k_, kwargs[k_]) for k_ in ks[1::2])
+            structs = B.boot(host, scamp_binary=path, boot_delay=0, post_boot_delay=0, sv_overrides=d_part, **k_part)
         elif via_dict:
             structs = B.boot(host, scamp_binary=path, boot_delay=0, post_boot_delay=0, sv_overrides=dict(kwargs))
         else:
@@ -139,8 +145,8 @@ def run(tier="quick", seed=0):
         # (a) single boots: every size x every option set x both ways of passing
         for sz in sizes:
             for opts in presets:
-                for via in (False, True, "controller"):
-                    if via == "controller" and sz not in (512, 1028, None):
+                for via in (False, True, "controller", "both"):
+                    if via in ("controller", "both") and sz not in (512, 1028, None):
                         continue
                     ev += 1
                     why = one_boot("h%d" % ev if via != "controller" else "localhost", sz, opts, via)
@@ -233,6 +239,6 @@ def run(tier="quick", seed=0):
             os.unlink(os.path.join(tmpdir, f))
         os.rmdir(tmpdir)
     return {"name": "c20_boot", "evaluations": ev, "distinct_nontrivial": len(distinct),
-            "rule": "real boot() over a recording socket and frozen clock: image lengths %s (None = the bundled scamp.boot) x 4 option sets x options passed as keywords / as sv_overrides / as keywords of MachineController.boot (three image lengths); every decodable system variable of the configuration area on its own (default + 1) in the sv_overrides dictionary of boot() and of MachineController.boot(); two-boot histories (3 first option sets x 2 second x 4 ways of passing); the image file replaced under the same path between two boots (4 length pairs x boot() / MachineController.boot()); a send() that raises (connection refused / host / network unreachable) at each of the 8 datagrams of a 6 KiB boot: boot() must not return normally; checks connect, start(n-1), blocks 0..n-1 with a1=(255<<8)|k and <= 1 KiB, end(1), un-swapped concatenation == image outside bytes 384..511, every decodable system variable in the configuration area == this call's option else the struct file's default, returned structs pack to the area sent" % (sizes,),
+            "rule": "real boot() over a recording socket and frozen clock: image lengths %s (None = the bundled scamp.boot) x 4 option sets x options passed as keywords / as sv_overrides / half and half in one call / as keywords of MachineController.boot (three image lengths); every decodable system variable of the configuration area on its own (default + 1) in the sv_overrides dictionary of boot() and of MachineController.boot(); two-boot histories (3 first option sets x 2 second x 4 ways of passing); the image file replaced under the same path between two boots (4 length pairs x boot() / MachineController.boot()); a send() that raises (connection refused / host / network unreachable) at each of the 8 datagrams of a 6 KiB boot: boot() must not return normally; checks connect, start(n-1), blocks 0..n-1 with a1=(255<<8)|k and <= 1 KiB, end(1), un-swapped concatenation == image outside bytes 384..511, every decodable system variable in the configuration area == this call's option else the struct file's default, returned structs pack to the area sent" % (sizes,),
             "bound": "listed sizes, option sets and two-boot histories", "exhaustive": False, "label": "bounded",
             "samples": samples, "violations": viol, "seconds": round(_time.time() - t0, 2)}
